@@ -847,4 +847,750 @@ theorem step_quiet (cfg : Cfg α) (s : State α) (op : Op α) (hop : op ≠ .not
     simp only [RelayRegistry.step, RelayRegistry.shutdown]
     exact QuietExt.of_log_eq (foldl_cancel_log _ s)
 
+/-! ### Datagram delivery: what a connection wrote out is a prefix of what was accepted for it -/
+
+/-- The datagrams (with sender id) connection `c` wrote to its stream, in order. -/
+def deliveredTo (log : List (Event α)) (c : Cid) : List (Id × Dgram α) :=
+  log.filterMap fun ev => match ev with
+    | .out c' (.datagrams src d) => if c' = c then some (src, d) else none
+    | _ => none
+
+/-- The datagrams (with sender id) `send_packet` queued on connection `c`, in order. -/
+def acceptedTo (log : List (Event α)) (c : Cid) : List (Id × Dgram α) :=
+  log.filterMap fun ev => match ev with
+    | .accepted _ src _ t d => if t = c then some (src, d) else none
+    | _ => none
+
+@[simp] theorem deliveredTo_append (a b : List (Event α)) (c) :
+    deliveredTo (a ++ b) c = deliveredTo a c ++ deliveredTo b c := by simp [deliveredTo]
+@[simp] theorem acceptedTo_append (a b : List (Event α)) (c) :
+    acceptedTo (a ++ b) c = acceptedTo a c ++ acceptedTo b c := by simp [acceptedTo]
+@[simp] theorem deliveredTo_nil (c : Cid) : deliveredTo ([] : List (Event α)) c = [] := rfl
+@[simp] theorem acceptedTo_nil (c : Cid) : acceptedTo ([] : List (Event α)) c = [] := rfl
+
+/-- An event that is neither an acceptance nor a datagram delivery. -/
+def isDataEvent : Event α → Bool
+  | .accepted .. => true
+  | .out _ (.datagrams ..) => true
+  | _ => false
+
+theorem deliveredTo_single_of_not_data (ev : Event α) (h : isDataEvent ev = false) (c : Cid) :
+    deliveredTo [ev] c = [] := by
+  cases ev with
+  | out c' f => cases f <;> simp_all [deliveredTo, isDataEvent]
+  | _ => simp [deliveredTo]
+
+theorem acceptedTo_single_of_not_data (ev : Event α) (h : isDataEvent ev = false) (c : Cid) :
+    acceptedTo [ev] c = [] := by
+  cases ev <;> simp_all [acceptedTo, isDataEvent]
+
+structure DelivInv (s : State α) : Prop where
+  live : ∀ c x, s.conns c = some x → x.exited = false →
+    acceptedTo s.log c = deliveredTo s.log c ++ x.packetQ
+  pre : ∀ c, deliveredTo s.log c <+: acceptedTo s.log c
+  fresh : ∀ c, s.nextCid ≤ c → s.conns c = none ∧ acceptedTo s.log c = []
+
+theorem DelivInv.init : DelivInv (init : State α) :=
+  ⟨fun _ _ h => by simp [RelayRegistry.init] at h, fun _ => by simp [RelayRegistry.init],
+   fun _ _ => ⟨rfl, rfl⟩⟩
+
+/-- `s'` extends `s` by events that are irrelevant to datagram delivery; packet queues are
+unchanged; records may disappear or become exited; no record appears. -/
+structure Neutral (s s' : State α) : Prop where
+  log : ∃ evs, s'.log = s.log ++ evs ∧ ∀ c, acceptedTo evs c = [] ∧ deliveredTo evs c = []
+  conns : ∀ c x', s'.conns c = some x' →
+    ∃ x, s.conns c = some x ∧ (x'.exited = false → x.exited = false ∧ x'.packetQ = x.packetQ)
+  nextCid : s'.nextCid = s.nextCid
+
+theorem Neutral.refl (s : State α) : Neutral s s :=
+  ⟨⟨[], (List.append_nil _).symm, fun _ => ⟨rfl, rfl⟩⟩, fun _ x' h => ⟨x', h, fun e => ⟨e, rfl⟩⟩, rfl⟩
+
+theorem Neutral.trans {s s' s'' : State α} (h : Neutral s s') (h' : Neutral s' s'') : Neutral s s'' := by
+  obtain ⟨e1, l1, p1⟩ := h.log
+  obtain ⟨e2, l2, p2⟩ := h'.log
+  refine ⟨⟨e1 ++ e2, by rw [l2, l1, List.append_assoc], fun c => by simp [p1 c, p2 c]⟩, fun c x'' hx => ?_,
+    h'.nextCid.trans h.nextCid⟩
+  obtain ⟨x', hx', ex1⟩ := h'.conns c x'' hx
+  obtain ⟨x, hx0, ex2⟩ := h.conns c x' hx'
+  exact ⟨x, hx0, fun he => ⟨(ex2 (ex1 he).1).1, (ex1 he).2.trans (ex2 (ex1 he).1).2⟩⟩
+
+theorem DelivInv.of_neutral {s s' : State α} (h : Neutral s s') (inv : DelivInv s) : DelivInv s' := by
+  obtain ⟨evs, hl, hp⟩ := h.log
+  refine ⟨fun c x' hx' hex => ?_, fun c => ?_, fun c hc => ?_⟩
+  · obtain ⟨x, hx, he⟩ := h.conns c x' hx'
+    rw [hl, acceptedTo_append, deliveredTo_append, (hp c).1, (hp c).2, List.append_nil, List.append_nil, (he hex).2]
+    exact inv.live c x hx (he hex).1
+  · rw [hl, acceptedTo_append, deliveredTo_append, (hp c).1, (hp c).2, List.append_nil, List.append_nil]
+    exact inv.pre c
+  · rw [h.nextCid] at hc
+    obtain ⟨h1, h2⟩ := inv.fresh c hc
+    refine ⟨?_, by rw [hl, acceptedTo_append, (hp c).1, h2]; rfl⟩
+    cases hx' : s'.conns c with
+    | none => rfl
+    | some x' =>
+      obtain ⟨x, hx, _⟩ := h.conns c x' hx'
+      rw [h1] at hx; cases hx
+
+theorem neutral_emit (s : State α) (evs : List (Event α)) (h : ∀ ev ∈ evs, isDataEvent ev = false) :
+    Neutral s (emit s evs) := by
+  refine ⟨⟨evs, rfl, fun c => ?_⟩, fun _ x' hx => ⟨x', hx, fun e => ⟨e, rfl⟩⟩, rfl⟩
+  induction evs with
+  | nil => exact ⟨rfl, rfl⟩
+  | cons ev evs ih =>
+    have h1 := h ev List.mem_cons_self
+    have ih' := ih (fun e he => h e (List.mem_cons_of_mem _ he))
+    have : ev :: evs = [ev] ++ evs := rfl
+    rw [this, acceptedTo_append, deliveredTo_append, ih'.1, ih'.2,
+      acceptedTo_single_of_not_data ev h1, deliveredTo_single_of_not_data ev h1]
+    exact ⟨rfl, rfl⟩
+
+theorem neutral_emit1 (s : State α) (ev : Event α) (h : isDataEvent ev = false) :
+    Neutral s (emit s [ev]) :=
+  neutral_emit s [ev] (fun e he => by simp only [List.mem_singleton] at he; subst he; exact h)
+
+/-- Replacing a record without touching its packet queue (and never un-exiting it). -/
+theorem neutral_setConn {s : State α} {c : Cid} {x : Conn α} (hx : s.conns c = some x) (y : Conn α)
+    (h : y.exited = false → x.exited = false ∧ y.packetQ = x.packetQ) :
+    Neutral s (setConn s c (some y)) := by
+  refine ⟨⟨[], (List.append_nil _).symm, fun _ => ⟨rfl, rfl⟩⟩, fun k x' hk => ?_, rfl⟩
+  simp only [setConn_conns] at hk
+  split at hk
+  · subst_vars
+    simp only [Option.some.injEq] at hk; subst hk
+    exact ⟨x, hx, h⟩
+  · exact ⟨x', hk, fun e => ⟨e, rfl⟩⟩
+
+theorem neutral_setConn_emit1 {s : State α} {c : Cid} {x : Conn α} (hx : s.conns c = some x) (y : Conn α)
+    (ev : Event α) (h : y.exited = false → x.exited = false ∧ y.packetQ = x.packetQ)
+    (hev : isDataEvent ev = false) : Neutral s (emit (setConn s c (some y)) [ev]) :=
+  (neutral_setConn hx y h).trans (neutral_emit1 _ _ hev)
+
+theorem neutral_delConn (s : State α) (c : Cid) : Neutral s (setConn s c none) := by
+  refine ⟨⟨[], (List.append_nil _).symm, fun _ => ⟨rfl, rfl⟩⟩, fun k x' hk => ?_, rfl⟩
+  simp only [setConn_conns] at hk
+  split at hk
+  · cases hk
+  · exact ⟨x', hk, fun e => ⟨e, rfl⟩⟩
+
+/-- Changes outside `conns`, `log`, `nextCid` are neutral. -/
+theorem neutral_of_eq {s s' : State α} (hl : s'.log = s.log) (hc : s'.conns = s.conns)
+    (hn : s'.nextCid = s.nextCid) : Neutral s s' :=
+  ⟨⟨[], by rw [hl, List.append_nil], fun _ => ⟨rfl, rfl⟩⟩, fun c x' hx => ⟨x', by rw [← hc]; exact hx, fun e => ⟨e, rfl⟩⟩, hn⟩
+
+theorem trySendMsg_neutral (cfg : Cfg α) (s : State α) (c m) : Neutral s (trySendMsg cfg s c m) := by
+  unfold trySendMsg
+  cases h : s.conns c with
+  | none => exact neutral_emit1 _ _ rfl
+  | some x =>
+    dsimp only
+    split
+    · apply neutral_setConn_emit1 h
+      · exact fun e => ⟨e, rfl⟩
+      · rfl
+    · exact neutral_emit1 _ _ rfl
+
+theorem trySendHealth_neutral (cfg : Cfg α) (s : State α) (c st) : Neutral s (trySendHealth cfg s c st) := by
+  unfold trySendHealth
+  split
+  · exact neutral_emit1 _ _ rfl
+  · exact trySendMsg_neutral _ _ _ _
+
+theorem cancel_neutral (s : State α) (c) : Neutral s (cancel s c) := by
+  unfold cancel
+  cases h : s.conns c with
+  | none => exact Neutral.refl _
+  | some x => exact neutral_setConn h _ (fun e => ⟨e, rfl⟩)
+
+theorem foldl_cancel_neutral (l : List Cid) (s : State α) : Neutral s (l.foldl cancel s) := by
+  induction l generalizing s with
+  | nil => exact Neutral.refl _
+  | cons c l ih => exact (cancel_neutral s c).trans (ih _)
+
+theorem disconnect_neutral (s : State α) (id sel) : Neutral s (disconnect s id sel) := by
+  unfold disconnect
+  split
+  · exact neutral_emit1 _ _ rfl
+  · split
+    · split
+      · exact (cancel_neutral _ _).trans (neutral_emit1 _ _ rfl)
+      · exact neutral_emit1 _ _ rfl
+    · exact (foldl_cancel_neutral _ _).trans (neutral_emit1 _ _ rfl)
+
+theorem deliverMsg_neutral (s : State α) (c) : Neutral s (deliverMsg s c) := by
+  unfold deliverMsg
+  cases h : s.conns c with
+  | none => exact Neutral.refl _
+  | some x =>
+    dsimp only
+    split
+    · exact Neutral.refl _
+    · split
+      · exact Neutral.refl _
+      · apply neutral_setConn_emit1 h
+        · exact fun e => ⟨e, rfl⟩
+        · rfl
+
+theorem actorExit_neutral (s : State α) (c) : Neutral s (actorExit s c) := by
+  unfold actorExit
+  cases h : s.conns c with
+  | none => exact Neutral.refl _
+  | some x => exact neutral_setConn h _ (fun hf => by simp at hf)
+
+theorem notifyGone_neutral (cfg : Cfg α) (s : State α) : Neutral s (notifyGone cfg s) := by
+  unfold notifyGone
+  split
+  · exact Neutral.refl _
+  · rename_i gone peer rest _
+    have h0 : Neutral s (emit { s with pendingGone := rest } [Event.goneAttempt gone peer]) :=
+      Neutral.trans (s' := { s with pendingGone := rest }) (neutral_of_eq rfl rfl rfl)
+        (neutral_emit1 _ (Event.goneAttempt gone peer) rfl)
+    dsimp only
+    split
+    · exact h0
+    · exact h0.trans (trySendMsg_neutral _ _ _ _)
+
+theorem shutdown_neutral (s : State α) : Neutral s (shutdown s) := by
+  unfold shutdown
+  exact (foldl_cancel_neutral _ s).trans (neutral_of_eq rfl rfl rfl)
+
+theorem unregisterReg_neutral (cfg : Cfg α) (s : State α) (id cid) : Neutral s (unregisterReg cfg s id cid) := by
+  unfold unregisterReg
+  split
+  · exact Neutral.refl _
+  · split
+    · split
+      · rename_i last rest _
+        exact Neutral.trans (s' := setEntry s id (some { active := last, inactive := rest }))
+          (neutral_of_eq rfl rfl rfl) (trySendHealth_neutral _ _ _ _)
+      · exact Neutral.trans (s' := { setEntry (setSentTo s id []) id none with
+            pendingGone := s.pendingGone ++ (s.sentTo id).map (fun p => (id, p)) })
+          (neutral_of_eq rfl rfl rfl) (neutral_emit1 _ (Event.entryRemoved id (s.sentTo id)) rfl)
+    · exact neutral_of_eq rfl rfl rfl
+
+theorem unregister_neutral (cfg : Cfg α) (s : State α) (c) : Neutral s (unregister cfg s c) := by
+  unfold unregister
+  split
+  · exact Neutral.refl _
+  · exact (neutral_delConn s c).trans (unregisterReg_neutral _ _ _ _)
+
+@[simp] theorem registerPre_log (s : State α) (id v1) :
+    (registerPre s id v1).log = s.log ++ [.registered s.nextCid id] := rfl
+@[simp] theorem registerPre_conns (s : State α) (id v1) (k : Cid) :
+    (registerPre s id v1).conns k = if k = s.nextCid then some (newConn id v1) else s.conns k := rfl
+@[simp] theorem registerPre_nextCid (s : State α) (id v1) :
+    (registerPre s id v1).nextCid = s.nextCid + 1 := rfl
+
+theorem DelivInv.register (cfg : Cfg α) {s : State α} (inv : DelivInv s) (id v1) :
+    DelivInv (register cfg s id v1) := by
+  have hpre : DelivInv (registerPre s id v1) := by
+    have e1 : ∀ c, acceptedTo [Event.registered (α := α) s.nextCid id] c = [] := fun _ => rfl
+    have e2 : ∀ c, deliveredTo [Event.registered (α := α) s.nextCid id] c = [] := fun _ => rfl
+    refine ⟨fun c x hx hex => ?_, fun c => ?_, fun c hc => ?_⟩
+    · rw [registerPre_log, acceptedTo_append, deliveredTo_append, e1, e2, List.append_nil, List.append_nil]
+      rw [registerPre_conns] at hx
+      split at hx
+      · subst_vars
+        simp only [Option.some.injEq] at hx; subst hx
+        have h0 := (inv.fresh s.nextCid (Nat.le_refl _)).2
+        have hp := inv.pre s.nextCid
+        rw [h0] at hp ⊢
+        rw [List.prefix_nil.mp hp]
+        rfl
+      · exact inv.live c x hx hex
+    · rw [registerPre_log, acceptedTo_append, deliveredTo_append, e1, e2, List.append_nil, List.append_nil]
+      exact inv.pre c
+    · rw [registerPre_nextCid] at hc
+      obtain ⟨h1, h2⟩ := inv.fresh c (by omega)
+      refine ⟨?_, ?_⟩
+      · rw [registerPre_conns, if_neg (by omega)]; exact h1
+      · rw [registerPre_log, acceptedTo_append, h2, e1]
+        rfl
+  rw [register_eq]
+  split
+  · exact DelivInv.of_neutral (s := registerPre s id v1) ((trySendHealth_neutral _ _ _ _).trans (neutral_of_eq rfl rfl rfl)) hpre
+  · exact DelivInv.of_neutral (s := registerPre s id v1) (neutral_of_eq rfl rfl rfl) hpre
+
+theorem DelivInv.sendPacket (cfg : Cfg α) {s : State α} (inv : DelivInv s) (sender src dst d) :
+    DelivInv (sendPacket cfg s sender src dst d) := by
+  unfold RelayRegistry.sendPacket
+  split
+  · exact DelivInv.of_neutral (neutral_emit1 _ _ rfl) inv
+  · split
+    · exact DelivInv.of_neutral (neutral_emit1 _ _ rfl) inv
+    · rename_i e _
+      cases ht : s.conns e.active with
+      | none => exact DelivInv.of_neutral (neutral_emit1 _ _ rfl) inv
+      | some x =>
+        dsimp only
+        split
+        · -- accepted
+          refine ⟨fun c y hy hex => ?_, fun c => ?_, fun c hc => ?_⟩
+          · simp only [emit_conns, setSentTo_conns, setConn_conns, emit_log, setSentTo_log, setConn_log,
+              acceptedTo_append, deliveredTo_append] at hy ⊢
+            have e2 : deliveredTo [Event.accepted (α := α) sender src dst e.active d] c = [] := rfl
+            rw [e2, List.append_nil]
+            split at hy
+            · subst_vars
+              simp only [Option.some.injEq] at hy; subst hy
+              have hl := inv.live e.active x ht hex
+              have e1 : acceptedTo [Event.accepted (α := α) sender src dst e.active d] e.active = [(src, d)] := by
+                simp [acceptedTo]
+              rw [e1, hl, List.append_assoc]
+            · rename_i hne
+              have := inv.live c y hy hex
+              have e1 : acceptedTo [Event.accepted (α := α) sender src dst e.active d] c = [] := by
+                simp [acceptedTo, Ne.symm hne]
+              rw [e1, List.append_nil]; exact this
+          · simp only [emit_log, setSentTo_log, setConn_log, acceptedTo_append, deliveredTo_append]
+            have e2 : deliveredTo [Event.accepted (α := α) sender src dst e.active d] c = [] := rfl
+            rw [e2, List.append_nil]
+            exact List.IsPrefix.trans (inv.pre c) (List.prefix_append _ _)
+          · have hc' : s.nextCid ≤ c := hc
+            obtain ⟨h1, h2⟩ := inv.fresh c hc'
+            have hne : e.active ≠ c := by rintro rfl; rw [h1] at ht; cases ht
+            refine ⟨?_, ?_⟩
+            · show (if c = e.active then _ else s.conns c) = none
+              rw [if_neg (Ne.symm hne)]; exact h1
+            · simp only [emit_log, setSentTo_log, setConn_log, acceptedTo_append, h2]
+              simp [acceptedTo, hne]
+        · exact DelivInv.of_neutral (neutral_emit1 _ _ rfl) inv
+
+theorem DelivInv.recvFrame (cfg : Cfg α) {s : State α} (inv : DelivInv s) (c f) :
+    DelivInv (recvFrame cfg s c f) := by
+  unfold RelayRegistry.recvFrame
+  split
+  · exact inv
+  · split
+    · exact inv
+    · split
+      · exact inv.sendPacket cfg _ _ _ _
+      · exact DelivInv.of_neutral (neutral_emit1 _ _ rfl) inv
+      · exact inv
+
+theorem DelivInv.deliverPacket (cfg : Cfg α) {s : State α} (inv : DelivInv s) (c) :
+    DelivInv (deliverPacket cfg s c) := by
+  unfold RelayRegistry.deliverPacket
+  cases hx : s.conns c with
+  | none => exact inv
+  | some x =>
+    dsimp only
+    split
+    · exact inv
+    · rename_i hex
+      have hex' : x.exited = false := by simpa using hex
+      split
+      · exact inv
+      · rename_i src d rest hq
+        have hlive := inv.live c x hx hex'
+        rw [hq] at hlive
+        split
+        · -- delivered
+          refine ⟨fun k y hy hey => ?_, fun k => ?_, fun k hk => ?_⟩
+          · simp only [emit_conns, setConn_conns, emit_log, setConn_log, acceptedTo_append,
+              deliveredTo_append] at hy ⊢
+            have e1 : acceptedTo [Event.out (α := α) c (.datagrams src d)] k = [] := rfl
+            rw [e1, List.append_nil]
+            split at hy
+            · subst_vars
+              simp only [Option.some.injEq] at hy; subst hy
+              simp [deliveredTo, hlive]
+            · rename_i hne
+              have e2 : deliveredTo [Event.out (α := α) c (.datagrams src d)] k = [] := by
+                simp [deliveredTo, Ne.symm hne]
+              rw [e2, List.append_nil]
+              exact inv.live k y hy hey
+          · simp only [emit_log, setConn_log, acceptedTo_append, deliveredTo_append]
+            have e1 : acceptedTo [Event.out (α := α) c (.datagrams src d)] k = [] := rfl
+            rw [e1, List.append_nil]
+            by_cases hk : k = c
+            · subst hk
+              rw [hlive]
+              simp [deliveredTo]
+            · have e2 : deliveredTo [Event.out (α := α) c (.datagrams src d)] k = [] := by
+                simp [deliveredTo, Ne.symm hk]
+              rw [e2, List.append_nil]; exact inv.pre k
+          · have hk' : s.nextCid ≤ k := hk
+            obtain ⟨h1, h2⟩ := inv.fresh k hk'
+            have hne : k ≠ c := by rintro rfl; rw [h1] at hx; cases hx
+            refine ⟨?_, ?_⟩
+            · show (if k = c then _ else s.conns k) = none
+              rw [if_neg hne]; exact h1
+            · simp only [emit_log, setConn_log, acceptedTo_append, h2]
+              rfl
+        · -- the stream rejected the packet: the actor fails
+          refine DelivInv.of_neutral (s := s) ?_ inv
+          apply neutral_setConn_emit1 hx
+          · intro hf; simp at hf
+          · rfl
+
+theorem DelivInv.step (cfg : Cfg α) {s : State α} (inv : DelivInv s) (op : Op α) : DelivInv (step cfg s op) := by
+  cases op with
+  | register id v1 => exact inv.register cfg id v1
+  | unregister c => exact DelivInv.of_neutral (unregister_neutral cfg s c) inv
+  | notifyGone => exact DelivInv.of_neutral (notifyGone_neutral cfg s) inv
+  | disconnect id sel => exact DelivInv.of_neutral (disconnect_neutral s id sel) inv
+  | recvFrame c f => exact inv.recvFrame cfg c f
+  | deliverPacket c => exact inv.deliverPacket cfg c
+  | deliverMsg c => exact DelivInv.of_neutral (deliverMsg_neutral s c) inv
+  | actorExit c => exact DelivInv.of_neutral (actorExit_neutral s c) inv
+  | shutdown => exact DelivInv.of_neutral (shutdown_neutral s) inv
+
+theorem DelivInv.runFrom (cfg : Cfg α) (ops : List (Op α)) {s : State α} (inv : DelivInv s) :
+    DelivInv (runFrom cfg s ops) := by
+  induction ops generalizing s with
+  | nil => exact inv
+  | cons op ops ih => exact ih (inv.step cfg op)
+
+/-! ### Which kinds of events a step can log -/
+
+inductive Kind where
+  | registered | accepted | dropped | enq | enqFail | out | fail | discResult | entryRemoved | goneAttempt
+deriving DecidableEq, Repr
+
+def kind : Event α → Kind
+  | .registered .. => .registered
+  | .accepted .. => .accepted
+  | .dropped .. => .dropped
+  | .enq .. => .enq
+  | .enqFail .. => .enqFail
+  | .out .. => .out
+  | .fail .. => .fail
+  | .discResult .. => .discResult
+  | .entryRemoved .. => .entryRemoved
+  | .goneAttempt .. => .goneAttempt
+
+/-- `s'` extends the log of `s` by events whose kinds are all in `K`. -/
+def KindExt (K : List Kind) (s s' : State α) : Prop :=
+  ∃ evs, s'.log = s.log ++ evs ∧ ∀ ev ∈ evs, K.contains (kind ev) = true
+
+theorem KindExt.refl (K : List Kind) (s : State α) : KindExt K s s :=
+  ⟨[], (List.append_nil _).symm, fun _ h => by simp at h⟩
+
+theorem KindExt.trans {K : List Kind} {s s' s'' : State α} (h : KindExt K s s') (h' : KindExt K s' s'') :
+    KindExt K s s'' := by
+  obtain ⟨e1, h1, p1⟩ := h
+  obtain ⟨e2, h2, p2⟩ := h'
+  refine ⟨e1 ++ e2, by rw [h2, h1, List.append_assoc], fun ev hev => ?_⟩
+  rcases List.mem_append.mp hev with hev | hev
+  · exact p1 ev hev
+  · exact p2 ev hev
+
+theorem KindExt.of_log_eq (K : List Kind) {s s' : State α} (h : s'.log = s.log) : KindExt K s s' :=
+  ⟨[], by rw [h, List.append_nil], fun _ h => by simp at h⟩
+
+theorem KindExt.emit1 (K : List Kind) (s : State α) (ev : Event α) (h : K.contains (kind ev) = true) :
+    KindExt K s (emit s [ev]) :=
+  ⟨[ev], rfl, fun e he => by simp only [List.mem_singleton] at he; subst he; exact h⟩
+
+theorem trySendMsg_kinds (K : List Kind) (h1 : K.contains .enq = true) (h2 : K.contains .enqFail = true)
+    (cfg : Cfg α) (s : State α) (c m) : KindExt K s (trySendMsg cfg s c m) := by
+  unfold trySendMsg
+  repeat' split
+  · exact KindExt.emit1 K _ _ h2
+  · exact (KindExt.of_log_eq K (s := s) rfl).trans (KindExt.emit1 K _ _ h1)
+  · exact KindExt.emit1 K _ _ h2
+
+theorem trySendHealth_kinds (K : List Kind) (h1 : K.contains .enq = true) (h2 : K.contains .enqFail = true)
+    (cfg : Cfg α) (s : State α) (c st) : KindExt K s (trySendHealth cfg s c st) := by
+  unfold trySendHealth
+  split
+  · exact KindExt.emit1 K _ _ h2
+  · exact trySendMsg_kinds K h1 h2 _ _ _ _
+
+/-- The kinds of events each operation can log. -/
+def opKinds : Op α → List Kind
+  | .register .. => [.registered, .enq, .enqFail]
+  | .unregister .. => [.enq, .enqFail, .entryRemoved]
+  | .notifyGone => [.goneAttempt, .enq, .enqFail]
+  | .disconnect .. => [.discResult]
+  | .recvFrame .. => [.accepted, .dropped, .out]
+  | .deliverPacket .. => [.out, .fail]
+  | .deliverMsg .. => [.out]
+  | .actorExit .. => []
+  | .shutdown => []
+
+theorem step_kinds (cfg : Cfg α) (s : State α) (op : Op α) : KindExt (opKinds op) s (step cfg s op) := by
+  cases op with
+  | register id v1 =>
+    simp only [RelayRegistry.step, RelayRegistry.register, opKinds]
+    have hpre : KindExt [.registered, .enq, .enqFail] s
+        (RelayRegistry.emit { setConn s s.nextCid (some (newConn id v1)) with nextCid := s.nextCid + 1 }
+        [.registered s.nextCid id]) := ⟨_, rfl, fun ev hev => by simp only [List.mem_singleton] at hev; subst hev; rfl⟩
+    split
+    · exact hpre.trans ((trySendHealth_kinds _ rfl rfl _ _ _ _).trans (KindExt.of_log_eq _ rfl))
+    · exact hpre.trans (KindExt.of_log_eq _ rfl)
+  | unregister c =>
+    simp only [RelayRegistry.step, RelayRegistry.unregister, opKinds]
+    split
+    · exact KindExt.refl _ _
+    · unfold unregisterReg
+      split
+      · exact KindExt.of_log_eq _ rfl
+      · split
+        · split
+          · exact (KindExt.of_log_eq _ (s := s) rfl).trans (trySendHealth_kinds _ rfl rfl _ _ _ _)
+          · exact (KindExt.of_log_eq _ (s := s) rfl).trans (KindExt.emit1 _ _ _ rfl)
+        · exact KindExt.of_log_eq _ rfl
+  | notifyGone =>
+    simp only [RelayRegistry.step, RelayRegistry.notifyGone, opKinds]
+    split
+    · exact KindExt.refl _ _
+    · rename_i gone peer rest _
+      have h0 : KindExt [.goneAttempt, .enq, .enqFail] s
+          (RelayRegistry.emit { s with pendingGone := rest } [Event.goneAttempt gone peer]) :=
+        ⟨_, rfl, fun ev hev => by simp only [List.mem_singleton] at hev; subst hev; rfl⟩
+      split
+      · exact h0
+      · exact h0.trans (trySendMsg_kinds _ rfl rfl _ _ _ _)
+  | disconnect id sel =>
+    simp only [RelayRegistry.step, RelayRegistry.disconnect, opKinds]
+    repeat' split
+    · exact KindExt.emit1 _ _ _ rfl
+    · exact (KindExt.of_log_eq _ (cancel_log s _)).trans (KindExt.emit1 _ _ _ rfl)
+    · exact KindExt.emit1 _ _ _ rfl
+    · exact (KindExt.of_log_eq _ (foldl_cancel_log _ s)).trans (KindExt.emit1 _ _ _ rfl)
+  | recvFrame c f =>
+    simp only [RelayRegistry.step, RelayRegistry.recvFrame, opKinds]
+    repeat' split
+    · exact KindExt.refl _ _
+    · exact KindExt.refl _ _
+    · unfold sendPacket
+      repeat' split
+      · exact KindExt.emit1 _ _ _ rfl
+      · exact KindExt.emit1 _ _ _ rfl
+      · exact KindExt.emit1 _ _ _ rfl
+      · exact (KindExt.of_log_eq _ (s := s) rfl).trans (KindExt.emit1 _ _ _ rfl)
+      · exact KindExt.emit1 _ _ _ rfl
+    · exact KindExt.emit1 _ _ _ rfl
+    · exact KindExt.refl _ _
+  | deliverPacket c =>
+    simp only [RelayRegistry.step, RelayRegistry.deliverPacket, opKinds]
+    repeat' split
+    · exact KindExt.refl _ _
+    · exact KindExt.refl _ _
+    · exact KindExt.refl _ _
+    · exact (KindExt.of_log_eq _ (s := s) rfl).trans (KindExt.emit1 _ _ _ rfl)
+    · exact (KindExt.of_log_eq _ (s := s) rfl).trans (KindExt.emit1 _ _ _ rfl)
+  | deliverMsg c =>
+    simp only [RelayRegistry.step, RelayRegistry.deliverMsg, opKinds]
+    repeat' split
+    · exact KindExt.refl _ _
+    · exact KindExt.refl _ _
+    · exact KindExt.refl _ _
+    · exact (KindExt.of_log_eq _ (s := s) rfl).trans (KindExt.emit1 _ _ _ rfl)
+  | actorExit c =>
+    simp only [RelayRegistry.step, RelayRegistry.actorExit, opKinds]
+    split
+    · exact KindExt.refl _ _
+    · exact KindExt.of_log_eq _ rfl
+  | shutdown =>
+    simp only [RelayRegistry.step, RelayRegistry.shutdown, opKinds]
+    exact KindExt.of_log_eq _ (foldl_cancel_log _ s)
+
+/-! ### Only forwardable packets are ever queued (C05) -/
+
+/-- Every packet waiting in a packet queue passes the forwarder's size check. -/
+def QInv (cfg : Cfg α) (s : State α) : Prop :=
+  ∀ c x, s.conns c = some x → ∀ p ∈ x.packetQ, sendable cfg p.2 = true
+
+theorem QInv.init (cfg : Cfg α) : QInv cfg (init : State α) := fun _ _ h => by simp [RelayRegistry.init] at h
+
+/-- Queues of `s'` only contain packets that were queued in `s` or are forwardable. -/
+def QSub (cfg : Cfg α) (s s' : State α) : Prop :=
+  ∀ c x', s'.conns c = some x' → ∀ p ∈ x'.packetQ,
+    sendable cfg p.2 = true ∨ ∃ x, s.conns c = some x ∧ p ∈ x.packetQ
+
+theorem QInv.of_qsub {cfg : Cfg α} {s s' : State α} (h : QSub cfg s s') (inv : QInv cfg s) : QInv cfg s' := by
+  intro c x' hx' p hp
+  rcases h c x' hx' p hp with h | ⟨x, hx, hpx⟩
+  · exact h
+  · exact inv c x hx p hpx
+
+theorem QSub.refl (cfg : Cfg α) (s : State α) : QSub cfg s s := fun _ x' hx' _ hp => Or.inr ⟨x', hx', hp⟩
+
+theorem QSub.trans {cfg : Cfg α} {s s' s'' : State α} (h : QSub cfg s s') (h' : QSub cfg s' s'') : QSub cfg s s'' := by
+  intro c x'' hx'' p hp
+  rcases h' c x'' hx'' p hp with h1 | ⟨x', hx', hpx'⟩
+  · exact Or.inl h1
+  · exact h c x' hx' p hpx'
+
+/-- Any change that keeps every record's packet queue (or drops records). -/
+theorem qsub_of_conns {cfg : Cfg α} {s s' : State α}
+    (h : ∀ c x', s'.conns c = some x' → ∃ x, s.conns c = some x ∧ ∀ p ∈ x'.packetQ, p ∈ x.packetQ ∨ sendable cfg p.2 = true) :
+    QSub cfg s s' := by
+  intro c x' hx' p hp
+  obtain ⟨x, hx, hq⟩ := h c x' hx'
+  rcases hq p hp with h1 | h1
+  · exact Or.inr ⟨x, hx, h1⟩
+  · exact Or.inl h1
+
+theorem qsub_of_sameConns {cfg : Cfg α} {s s' : State α} (h : s'.conns = s.conns) : QSub cfg s s' :=
+  qsub_of_conns (fun c x' hx' => ⟨x', by rw [← h]; exact hx', fun _ hp => Or.inl hp⟩)
+
+theorem qsub_setConn {cfg : Cfg α} {s : State α} {c : Cid} {x : Conn α} (hx : s.conns c = some x) (y : Conn α)
+    (hq : ∀ p ∈ y.packetQ, p ∈ x.packetQ ∨ sendable cfg p.2 = true) : QSub cfg s (setConn s c (some y)) := by
+  apply qsub_of_conns
+  intro k x' hk
+  simp only [setConn_conns] at hk
+  split at hk
+  · subst_vars
+    simp only [Option.some.injEq] at hk; subst hk
+    exact ⟨x, hx, hq⟩
+  · exact ⟨x', hk, fun _ hp => Or.inl hp⟩
+
+theorem qsub_setConn_emit {cfg : Cfg α} {s : State α} {c : Cid} {x : Conn α} (hx : s.conns c = some x)
+    (y : Conn α) (evs : List (Event α))
+    (hq : ∀ p ∈ y.packetQ, p ∈ x.packetQ ∨ sendable cfg p.2 = true) :
+    QSub cfg s (emit (setConn s c (some y)) evs) :=
+  (qsub_setConn hx y hq).trans (qsub_of_sameConns rfl)
+
+theorem qsub_delConn (cfg : Cfg α) (s : State α) (c : Cid) : QSub cfg s (setConn s c none) := by
+  apply qsub_of_conns
+  intro k x' hk
+  simp only [setConn_conns] at hk
+  split at hk
+  · cases hk
+  · exact ⟨x', hk, fun _ hp => Or.inl hp⟩
+
+theorem trySendMsg_qsub (cfg : Cfg α) (s : State α) (c m) : QSub cfg s (trySendMsg cfg s c m) := by
+  unfold trySendMsg
+  cases h : s.conns c with
+  | none => exact qsub_of_sameConns rfl
+  | some x =>
+    dsimp only
+    split
+    · apply qsub_setConn_emit h
+      exact fun _ hp => Or.inl hp
+    · exact qsub_of_sameConns rfl
+
+theorem trySendHealth_qsub (cfg : Cfg α) (s : State α) (c st) : QSub cfg s (trySendHealth cfg s c st) := by
+  unfold trySendHealth
+  split
+  · exact qsub_of_sameConns rfl
+  · exact trySendMsg_qsub _ _ _ _
+
+theorem cancel_qsub (cfg : Cfg α) (s : State α) (c) : QSub cfg s (cancel s c) := by
+  unfold cancel
+  cases h : s.conns c with
+  | none => exact QSub.refl _ _
+  | some x => exact qsub_setConn h _ (fun _ hp => Or.inl hp)
+
+theorem foldl_cancel_qsub (cfg : Cfg α) (l : List Cid) (s : State α) : QSub cfg s (l.foldl cancel s) := by
+  induction l generalizing s with
+  | nil => exact QSub.refl _ _
+  | cons c l ih => exact (cancel_qsub cfg s c).trans (ih _)
+
+theorem QInv.step (cfg : Cfg α) {s : State α} (inv : QInv cfg s) (op : Op α) : QInv cfg (step cfg s op) := by
+  refine QInv.of_qsub ?_ inv
+  cases op with
+  | register id v1 =>
+    simp only [RelayRegistry.step, register_eq]
+    have hpre : QSub cfg s (registerPre s id v1) := by
+      intro c x' hx' p hp
+      rw [registerPre_conns] at hx'
+      split at hx'
+      · simp only [Option.some.injEq] at hx'; subst hx'
+        simp [newConn] at hp
+      · exact Or.inr ⟨x', hx', hp⟩
+    split
+    · exact hpre.trans ((trySendHealth_qsub _ _ _ _).trans (qsub_of_sameConns rfl))
+    · exact hpre.trans (qsub_of_sameConns rfl)
+  | unregister c =>
+    simp only [RelayRegistry.step, RelayRegistry.unregister]
+    split
+    · exact QSub.refl _ _
+    · refine (qsub_delConn cfg s c).trans ?_
+      unfold unregisterReg
+      split
+      · exact QSub.refl _ _
+      · split
+        · split
+          · dsimp only
+            refine QSub.trans ?_ (trySendHealth_qsub _ _ _ _)
+            exact qsub_of_sameConns rfl
+          · exact qsub_of_sameConns rfl
+        · exact qsub_of_sameConns rfl
+  | notifyGone =>
+    simp only [RelayRegistry.step, RelayRegistry.notifyGone]
+    split
+    · exact QSub.refl _ _
+    · rename_i gone peer rest _
+      split
+      · exact qsub_of_sameConns rfl
+      · exact QSub.trans (s' := RelayRegistry.emit { s with pendingGone := rest } [Event.goneAttempt gone peer])
+          (qsub_of_sameConns rfl) (trySendMsg_qsub _ _ _ _)
+  | disconnect id sel =>
+    simp only [RelayRegistry.step, RelayRegistry.disconnect]
+    repeat' split
+    · exact qsub_of_sameConns rfl
+    · exact (cancel_qsub cfg s _).trans (qsub_of_sameConns rfl)
+    · exact qsub_of_sameConns rfl
+    · exact (foldl_cancel_qsub cfg _ s).trans (qsub_of_sameConns rfl)
+  | recvFrame c f =>
+    simp only [RelayRegistry.step, RelayRegistry.recvFrame]
+    repeat' split
+    · exact QSub.refl _ _
+    · exact QSub.refl _ _
+    · unfold sendPacket
+      split
+      · exact qsub_of_sameConns rfl
+      · rename_i hs
+        split
+        · exact qsub_of_sameConns rfl
+        · rename_i e _
+          cases ht : s.conns e.active with
+          | none => exact qsub_of_sameConns rfl
+          | some y =>
+            dsimp only
+            split
+            · refine QSub.trans (s' := setConn s e.active (some { y with packetQ := y.packetQ ++ [(_, _)] }))
+                (qsub_setConn ht _ (fun p hp => ?_)) (qsub_of_sameConns rfl)
+              rcases List.mem_append.mp hp with hp | hp
+              · exact Or.inl hp
+              · simp only [List.mem_singleton] at hp; subst hp
+                exact Or.inr (by simpa using hs)
+            · exact qsub_of_sameConns rfl
+    · exact qsub_of_sameConns rfl
+    · exact QSub.refl _ _
+  | deliverPacket c =>
+    simp only [RelayRegistry.step, RelayRegistry.deliverPacket]
+    cases hx : s.conns c with
+    | none => exact QSub.refl _ _
+    | some x =>
+      dsimp only
+      repeat' split
+      · exact QSub.refl _ _
+      · exact QSub.refl _ _
+      · rename_i hq _
+        apply qsub_setConn_emit hx
+        exact fun p hp => Or.inl (by rw [hq]; exact List.mem_cons_of_mem _ hp)
+      · rename_i hq _
+        apply qsub_setConn_emit hx
+        exact fun p hp => Or.inl (by rw [hq]; exact List.mem_cons_of_mem _ hp)
+  | deliverMsg c =>
+    simp only [RelayRegistry.step, RelayRegistry.deliverMsg]
+    cases hx : s.conns c with
+    | none => exact QSub.refl _ _
+    | some x =>
+      dsimp only
+      repeat' split
+      · exact QSub.refl _ _
+      · exact QSub.refl _ _
+      · apply qsub_setConn_emit hx
+        exact fun p hp => Or.inl hp
+  | actorExit c =>
+    simp only [RelayRegistry.step, RelayRegistry.actorExit]
+    cases hx : s.conns c with
+    | none => exact QSub.refl _ _
+    | some x => exact qsub_setConn hx _ (fun p hp => Or.inl hp)
+  | shutdown =>
+    simp only [RelayRegistry.step, RelayRegistry.shutdown]
+    exact (foldl_cancel_qsub cfg _ s).trans (qsub_of_sameConns rfl)
+
+theorem QInv.runFrom (cfg : Cfg α) (ops : List (Op α)) {s : State α} (inv : QInv cfg s) :
+    QInv cfg (runFrom cfg s ops) := by
+  induction ops generalizing s with
+  | nil => exact inv
+  | cons op ops ih => exact ih (inv.step cfg op)
+
 end IrohModel.RelayRegistry
